@@ -109,6 +109,15 @@ namespace ip {
 
 		if (m_queue.empty()) return;
 
+		// stale wake-up: the queue was cancelled and refilled after the timer
+		// fired but before this handler ran. The front entry is not due yet
+		if (m_queue.front().completion_time > chrono::high_resolution_clock::now())
+		{
+			m_timer.expires_at(m_queue.front().completion_time);
+			m_timer.async_wait(aux::make_malloc(std::bind(&basic_resolver::on_lookup, this, _1)));
+			return;
+		}
+
 		typename queue_t::value_type v = std::move(m_queue.front());
 		m_queue.erase(m_queue.begin());
 
